@@ -9,6 +9,9 @@ LLSE_NOTE = ('Trusted base: rustc/LLVM up to the emitted IR (the IR is what is c
              'Verdicts hold within the stated structural bounds only; see evidence coverage.bounds / outside_claim.')
 
 CLAIMED = {
+ 'C04': dict(
+    text='Bounded symbolic model checking of the compiled conversion path (VM ConvertTo opcode, Quantity::convert_to with its common-factor cancellation, no_simplify / conversion-target marker): for each selected ordered pair of same-dimension units (with prefixes, with a numeric multiple on the target side) and all doubles a: the result is structurally in the requested unit, is marked not-to-be-simplified, carries the requested target as display multiple exactly when its magnitude is not 1, preserves NaN / zero / infinity / sign, is idempotent and the identity on its own unit bit for bit; a second conversion to the plain unit drops the multiple marker; every power of two scales exactly; and the conversion of 1 (also through an intermediate unit, and back) agrees with the factor computed from the unit definitions by exact rational arithmetic in the plan.',
+    design_ref='DESIGN.md §4 C04', technique='symbolic execution of LLVM IR + SMT (z3 QF_FPBV) with sound FP abstraction; exact-rational reference for the factor'),
  'C08': dict(
     text='Bounded symbolic model checking of kernels of the pipeline in a checked build (overflow checks and debug assertions on), every finding confirmed through the public API: (1) the bytecode compiler + VM on `x!…!` with the number of "!" symbolic (1..2^20) against a reference multifactorial: no panic, no budget overrun, the written order is used; (2) run-time unit exponent arithmetic (Unit::power, multiplication + canonicalisation) and (3) the checker\'s dimension exponent arithmetic (DType::try_* must not panic; the unchecked variants) with symbolic exponents up to 2^126. A kernel finding is reported only if the same inputs submitted as source text to Context::interpret abort, hang or misbehave natively; two genuine overflow defects are listed as known findings. The exponent kernels are bounded explorations (bug hunting), stated as such.',
     design_ref='DESIGN.md §4 C08', technique='symbolic execution of LLVM IR + SMT (z3 QF_BV/QF_FPBV) on kernels, public-API replay of every model'),
